@@ -19,7 +19,7 @@ func init() {
 		Explanation: "Decides structural clauses C03.1-C03.3 of DESIGN.md on the current source: (1) every store into the wanted slice W is an observed pod at index getOrdinal(pod) with 0<=k<bound and k not an effective slot, or a fresh pod from the versioned constructor at its own index; every append to the condemned slice K is guarded by ord>=bound or slot membership; " +
 			"(2) every call of the pod-delete primitive takes its pod from K (class a) or from W under the facts of class b (Failed/Succeeded, and every path from it errors out or re-creates the same cell) or class c (strategy != OnDelete, revision != update revision, not terminating, index >= partition lower bound); any other provenance is a violation; " +
 			"(3) the raw Pods().Delete primitive is called only inside the real pod control and the unused RealPodControl.DeletePod, and nothing reachable from sync or the event handlers reaches DeleteCollection or RealPodControl.DeletePod. " +
-			"NOT decided: that the snapshot a reconcile saw is consistent with any history (cache lag, races); the rules decide which guard dominates which delete, per reconcile.",
+			"The helper-walk rules of C01.3 are evaluated as a clause (without the int32 overflow rule). NOT decided: that the snapshot a reconcile saw is consistent with any history (cache lag, races); the rules decide which guard dominates which delete, per reconcile.",
 	})
 }
 
